@@ -89,6 +89,32 @@ fn main() {
             rep.extra.push(("wall_s".into(), format!("{:.3}", t0.elapsed().as_secs_f64())));
             rep.print();
         }
+        "digest" => {
+            let root: Vec<usize> = arg("--root", "2,4").split(',').map(|x| x.parse().unwrap()).collect();
+            let cfg = Cfg { root: (root[0], root[1]), parity_odd: parity == "odd", depth: arg("--depth", "2").parse().unwrap(), maxh: 3, max_roots: 2, alphabet: alphabet_named("full"), ooc: true, huge: true, perms: false, probes: false, oom_probes: false, oom_probe_depth: 0, dedup: false, shard: (0, 1), max_states: 0, property: "C16".into() };
+            let dump: Option<usize> = std::env::args().position(|a| a == "--dump-bucket").map(|i| std::env::args().nth(i + 1).unwrap().parse().unwrap());
+            // warm-up
+            {
+                let mut c2 = cfg.clone();
+                c2.depth = 1;
+                let _ = explore::digest(&c2, Some(0));
+            }
+            let (buckets, lines, total) = explore::digest(&cfg, dump);
+            let features = if cfg!(feature = "extra-platforms") { "extra" } else if cfg!(feature = "std") { "std" } else { "nostd" };
+            let mut rep = oracle::report::Report::new("digest", "C16", &format!("{}/{}/{}/root={}:{}", profile, parity, features, root[0], root[1]));
+            rep.evaluations = total;
+            rep.states = total;
+            rep.transitions = total;
+            rep.traces = total;
+            rep.distinct_nontrivial = buckets.len() as u64;
+            rep.extra.push(("buckets".into(), format!("{{{}}}", buckets.iter().map(|(b, h, n)| format!("\"{}\":[\"{:032x}\",{}]", if *b == usize::MAX { "root".to_string() } else { b.to_string() }, h, n)).collect::<Vec<_>>().join(","))));
+            rep.sample(format!("root {} depth {}: {} histories in {} buckets", root_name(root[0]), cfg.depth, total, buckets.len()));
+            for l in lines {
+                println!("DUMP {}", l);
+            }
+            rep.extra.push(("wall_s".into(), format!("{:.3}", t0.elapsed().as_secs_f64())));
+            rep.print();
+        }
         "recycle" => {
             // hmc recycle --set small|t1k|t2k|t64k --k 0 [--roundtrip] [--unsplit] [--periodic 3]
             let set = arg("--set", "small");
@@ -121,6 +147,17 @@ fn main() {
                     w.max_states = 30;
                     let mut r = oracle::report::Report::new("recycle", "C18", "warmup");
                     let _ = recycle::explore(&w, &mut r);
+                }
+                if flag("--periodic-only") {
+                    let (words, steps) = recycle::periodic(p, period, arg("--rounds", "100").parse().unwrap(), &mut rep);
+                    words_total += words;
+                    rep.evaluations += steps;
+                    rep.traces += words;
+                    rep.states += words;
+                    rep.transitions += steps;
+                    rep.distinct_nontrivial += words;
+                    rep.sample(format!("{}: {} periodic schedules of period <= {} x {} rounds, {} steps", p.name, words, period, 4 * arg("--rounds", "100").parse::<usize>().unwrap(), steps));
+                    continue;
                 }
                 let o = recycle::explore(p, &mut rep);
                 rep.states += o.states;
